@@ -23,6 +23,9 @@ type replay struct {
 	N      int    `json:"n"`
 	Fam    string `json:"fam"`
 	Input  string `json:"input,omitempty"` // only for mutated inputs
+	// AfterBig > 0: the input was measured right after a large datagram had been decoded in the same process
+	// (1, 3: a flat list of 16k options; 2: a long list inside an IA_NA followed by empty IA_NAs; DHCPv4: 21k options)
+	AfterBig int `json:"after_big,omitempty"`
 }
 
 func tlv(code int, v []byte) []byte {
@@ -71,6 +74,36 @@ func ptrChainFan(n, kind int) []byte {
 		v = append(v, 0xC0|byte(prev>>8), byte(prev))
 	}
 	return v
+}
+
+func bigFlat6() []byte { // 16k minimal options in one list
+	b := []byte{1, 1, 2, 3}
+	for len(b)+4 <= 65000 {
+		b = append(b, 0, byte(14+len(b)%3), 0, 0)
+	}
+	return b
+}
+
+func bigDeep6() []byte { // a long list nested in an IA_NA, followed by empty IA_NAs
+	in := []byte{}
+	for len(in)+4 <= 30000 {
+		in = append(in, 0, 14, 0, 0)
+	}
+	b := msg6(tlv(3, append(make([]byte, 12), in...)))
+	for len(b)+16 <= 60000 {
+		b = append(b, tlv(3, make([]byte, 12))...)
+	}
+	return b
+}
+
+func bigV4() []byte {
+	w := make([]byte, 240, 65000)
+	w[0], w[1], w[2] = 1, 1, 6
+	copy(w[236:], []byte{99, 130, 83, 99})
+	for i := 0; len(w)+3 <= 64000; i++ {
+		w = append(w, byte(1+i%250), 1, byte(i))
+	}
+	return append(w, 255)
 }
 
 func msg6(opts []byte) []byte { return append([]byte{1, 0xa, 0xb, 0xc}, opts...) }
@@ -487,6 +520,31 @@ func runFamily(r *mon.Rec, f family) {
 			r.Sample(map[string]any{"family": f.name, "n": c.n, "depth": c.depth, "accepted": c.accepted, "decode_alloc": c.decAlloc, "encode_alloc": c.encAlloc, "retained": c.retained, "decode_mallocs": c.decMallocs})
 		}
 	}
+	// the bound holds for a datagram whatever was decoded before it: the small sizes once more, each right after a
+	// 64 kB datagram with thousands of options / a deep nest has been decoded (and dropped) in the same process
+	for k, n := range []int{sizes[0], 256, 1024} {
+		var big []byte
+		if f.fam == "v4" {
+			big = bigV4()
+		} else if k%2 == 0 {
+			big = bigFlat6()
+		} else {
+			big = bigDeep6()
+		}
+		if f.fam == "v4" {
+			sink, _ = dhcpv4.FromBytes(big)
+		} else {
+			sink, _ = dhcpv6.FromBytes(big)
+		}
+		sink = nil
+		b := f.build(n)
+		rp := replay{Family: f.name, N: n, Fam: f.fam, AfterBig: k + 1}
+		curCase.Store(&rp)
+		if !judge(r, rp, measure(f.fam, b)) {
+			return
+		}
+		r.Count("measured_after_a_large_datagram", 1)
+	}
 	// scaling law between n and 16n (independent of the absolute constants)
 	for _, pair := range [][2]int{{1024, 16384}, {4096, 65507}} {
 		a, okA := costs[pair[0]]
@@ -569,6 +627,16 @@ func TestCheck(t *testing.T) {
 					b = f.build(rp.N)
 				}
 			}
+		}
+		if rp.AfterBig > 0 {
+			if rp.Fam == "v4" {
+				sink, _ = dhcpv4.FromBytes(bigV4())
+			} else if rp.AfterBig%2 == 1 {
+				sink, _ = dhcpv6.FromBytes(bigFlat6())
+			} else {
+				sink, _ = dhcpv6.FromBytes(bigDeep6())
+			}
+			sink = nil
 		}
 		judge(r, rp, measure(rp.Fam, b))
 		return
